@@ -218,52 +218,88 @@ def triage(ctx, A, since, rid, facts, scope_filter=None):
     return by_kind
 
 
-def static_reach(F, root_defs):
-    """over-approximate static call graph closure from root_defs: resolved callees, every impl of an unresolved trait method,
-    closures of a reached body and function items mentioned as constants"""
+def static_reach(F, root_defs, ip=None):
+    """defs reachable in the instance-level static call graph from root_defs.  Calls are resolved the way the analyser's
+    dispatch resolves them (rustc's resolution, then impl lookup once the caller's type arguments make the receiver
+    concrete); a trait-method call whose receiver stays abstract reaches every impl of that method.  Closures of a reached
+    body and function items mentioned as constants are reached too."""
+    from ..vra.types import subst
+    from ..vra.interp import subst_garg
     impls = {}
     for b in F.bodies.values():
         if b.get("impl_trait") and b.get("name"):
             impls.setdefault((b["impl_trait"], b["name"]), []).append(b["def"])
-    edges = {}
+    if ip is not None and ip.impl_index is None:
+        ip.build_impl_index()
 
     def consts(x, out):
         if isinstance(x, dict):
             t = x.get("ty")
             if x.get("k") == "const" and isinstance(t, dict) and t.get("k") == "fndef" and t.get("def") in F.bodies:
-                out.add(t["def"])
+                out.append((t["def"], t.get("args", [])))
             for v in x.values():
                 consts(v, out)
         elif isinstance(x, list):
             for v in x:
                 consts(v, out)
-    for b in F.bodies.values():
-        out = set()
+
+    def ekey(d, env):
+        from ..vra.types import ty_str
+        return d + "{" + ",".join("%s=%s" % (k, ty_str(v) if isinstance(v, dict) else v) for k, v in sorted(env.items())) + "}"
+
+    reach = set()
+    seen = set()
+    todo = [(d, {}) for d in root_defs]
+    steps = 0
+    while todo:
+        d, env = todo.pop()
+        k = ekey(d, env)
+        if k in seen or d not in F.bodies:
+            continue
+        seen.add(k)
+        reach.add(d)
+        steps += 1
+        if steps > 20000:
+            return None
+        b = F.bodies[d]
         for blk in b["blocks"]:
             t = blk["term"]
-            if t["k"] == "call":
-                c = t.get("callee") or {}
-                r = (c.get("resolved") or {}).get("def")
-                if r in F.bodies:
-                    out.add(r)
-                elif c.get("def") in F.bodies:
-                    out.add(c["def"])
-                if c.get("trait") and c.get("method") and r not in F.bodies:
-                    out.update(impls.get((c["trait"], c["method"]), ()))
-        consts(b["blocks"], out)
-        pre = b["def"] + "::{closure"
-        for d in F.bodies:
-            if d.startswith(pre):
-                out.add(d)
-        edges[b["def"]] = out
-    reach = set()
-    todo = list(root_defs)
-    while todo:
-        d = todo.pop()
-        if d in reach:
-            continue
-        reach.add(d)
-        todo.extend(edges.get(d, ()))
+            if t["k"] != "call":
+                continue
+            c = t.get("callee") or {}
+            if not c or "ctor_adt" in c:
+                continue
+            res = c.get("resolved")
+            if res and res.get("local") and res["def"] in F.bodies and res.get("ik") == "item":
+                body2 = F.bodies[res["def"]]
+                todo.append((res["def"], ip.env_for(body2, res["args"], env) if ip is not None else {}))
+                continue
+            if "trait" in c and "self_ty" in c:
+                hit = None
+                if ip is not None:
+                    sty = subst(c["self_ty"], env)
+                    if c["trait"] in ip.impl_index and sty.get("k") not in ("param", "alias", "other", "deep"):
+                        targs = [subst_garg(a_, env) for a_ in c["args"][1:]]
+                        hit = ip.find_impl_method(c["trait"], c["method"], sty, targs)
+                        if hit is not None:
+                            todo.append((hit[0]["def"], hit[1]))
+                            continue
+                        if c["trait"] in F.traits:
+                            continue       # concrete receiver without a local impl of a local trait: no local target
+                for d2 in impls.get((c["trait"], c["method"]), ()):
+                    todo.append((d2, {}))
+                continue
+            if c.get("local") and c.get("def") in F.bodies:
+                body2 = F.bodies[c["def"]]
+                todo.append((c["def"], ip.env_for(body2, c["args"], env) if ip is not None else {}))
+        cs = []
+        consts(b["blocks"], cs)
+        for d2, args in cs:
+            todo.append((d2, ip.env_for(F.bodies[d2], args, env) if ip is not None else {}))
+        pre = d + "::{closure"
+        for d2 in F.bodies:
+            if d2.startswith(pre):
+                todo.append((d2, env))
     return reach
 
 
@@ -283,7 +319,7 @@ def check_visited(ctx, A, bodies, rid, F=None, roots=None):
         if any(k == d or k.startswith(d + "{") for k in vis):
             visited_defs.add(d)
     missing = []
-    reach = static_reach(F, roots) if F is not None and roots is not None else None
+    reach = static_reach(F, roots, A.ip) if F is not None and roots is not None else None
     dead = []
     for b in bodies:
         if b["def"] in visited_defs:
